@@ -137,8 +137,9 @@ EXPORT errno_t _mbstowcs_s_chk(size_t *restrict retvalp, wchar_t *restrict dest,
     CHK_SRC_NULL("mbstowcs_s", retvalp)
     *retvalp = 0;
     if (unlikely(src == NULL)) {
-        /* dest may be null as well (the size-query form): nothing to clear then */
-        if (dest) {
+        /* dest may be null as well (the size-query form), or have no elements:
+           nothing to clear then */
+        if (dest && dmax) {
             handle_werror(dest, dmax, "mbstowcs_s: src is null", ESNULLP);
         } else {
             invoke_safe_str_constraint_handler("mbstowcs_s: src is null", NULL,
